@@ -135,27 +135,33 @@ class ArithFunctions(InterpreterFunctions):
 
     @impl(arith.CmpiOp)
     def run_cmpi(self, interpreter: Interpreter, op: arith.CmpiOp, args: PythonValues):
+        lhs, rhs = args
+        if isa(op.lhs.type, builtin.IndexType | builtin.IntegerType):
+            # Signless values: the same bit pattern can be held as a negative or a
+            # positive Python int (or a bool), normalise before comparing.
+            bitwidth = _int_bitwidth(interpreter, op.lhs.type)
+            lhs, rhs = to_signed(lhs, bitwidth), to_signed(rhs, bitwidth)
         match op.predicate.value.data:
             case 0:  # "eq"
-                return (args[0] == args[1],)
+                return (lhs == rhs,)
             case 1:  # "ne"
-                return (args[0] != args[1],)
+                return (lhs != rhs,)
             case 2:  # "slt"
-                return (args[0] < args[1],)
+                return (lhs < rhs,)
             case 3:  # "sle"
-                return (args[0] <= args[1],)
+                return (lhs <= rhs,)
             case 4:  # "sgt"
-                return (args[0] > args[1],)
+                return (lhs > rhs,)
             case 5:  # "sge"
-                return (args[0] >= args[1],)
+                return (lhs >= rhs,)
             case 6:  # "ult"
-                return (args[0] < args[1],)
+                return (lhs < rhs,)
             case 7:  # "ule"
-                return (args[0] <= args[1],)
+                return (lhs <= rhs,)
             case 8:  # "ugt"
-                return (args[0] > args[1],)
+                return (lhs > rhs,)
             case 9:  # "uge"
-                return (args[0] >= args[1],)
+                return (lhs >= rhs,)
             case _:
                 raise InterpretationError(
                     f"arith.cmpi predicate {op.predicate} mot implemented yet."
